@@ -18,6 +18,8 @@ import (
 	"github.com/samaritan-proxy/samaritan/pb/config/service"
 	"github.com/samaritan-proxy/samaritan/proc"
 	_ "github.com/samaritan-proxy/samaritan/proc/tcp" // register the tcp processor
+
+	"verif/harness/portres"
 )
 
 var svcCounter int64
@@ -126,6 +128,7 @@ func Fill(b []byte, id, dir, off int) {
 // Backend is a scripted TCP backend with an accept log.
 type Backend struct {
 	mu      sync.Mutex
+	res     *portres.Port
 	ln      net.Listener
 	Addr    string
 	port    int
@@ -152,10 +155,18 @@ func (b *Backend) Start() error {
 	if b.up {
 		return nil
 	}
+	if b.res == nil {
+		// the port stays reserved for this backend while it is down (see package portres)
+		r, err := portres.Reserve()
+		if err != nil {
+			return err
+		}
+		b.res = r
+	}
 	var ln net.Listener
 	var err error
 	for i := 0; i < 200; i++ {
-		ln, err = net.Listen("tcp", fmt.Sprintf("127.0.0.1:%d", b.port))
+		ln, err = b.res.Listen()
 		if err == nil {
 			break
 		}
@@ -165,8 +176,8 @@ func (b *Backend) Start() error {
 		return err
 	}
 	b.ln, b.up = ln, true
-	b.port = ln.Addr().(*net.TCPAddr).Port
-	b.Addr = ln.Addr().String()
+	b.port = b.res.Port
+	b.Addr = b.res.Addr
 	go b.loop(ln)
 	return nil
 }
@@ -221,5 +232,13 @@ func (b *Backend) AcceptCount() int {
 	return b.Accepts
 }
 
-// Close stops everything.
-func (b *Backend) Close() { b.Stop(true) }
+// Close stops everything and releases the port.
+func (b *Backend) Close() {
+	b.Stop(true)
+	b.mu.Lock()
+	if b.res != nil {
+		b.res.Release()
+		b.res = nil
+	}
+	b.mu.Unlock()
+}
